@@ -626,7 +626,7 @@ package io
 
 // values that are kept (strings, byte slices, interface{} contents) are never built from the
 // unsafe views of the window: the functions that produce them do not call the unsafe readers
-//@ rule no_calls from=\(\*Decoder\)\.(decodeString|decodeStringPtr|decodeBytes|decodeBytesPtr|decodeInterface|decodeInterfacePtr|ReadString|ReadSafeString|readSafeString|ReadBytes|readBytes|ReadStringAsBytes|readStringAsSafeBytes|Next|Until|decodeLongAsInterface|decodeDoubleAsInterface|decodeListAsInterface|decodeMapAsInterface|ReadObject|readObject|readObjectAsMap) to=(*Decoder).UnsafeUntil,(*Decoder).UnsafeNext,(*Decoder).readUnsafeString,(*Decoder).ReadUnsafeString,(*Decoder).readUnsafeBytes prop=C14
+//@ rule no_calls from=\(\*Decoder\)\.(decodeString|decodeStringPtr|decodeBytes|decodeBytesPtr|decodeInterface|decodeInterfacePtr|ReadString|ReadSafeString|readSafeString|ReadBytes|readBytes|ReadStringAsBytes|readStringAsSafeBytes|Next|Until|decodeLongAsInterface|decodeDoubleAsInterface|decodeListAsInterface|decodeMapAsInterface|ReadObject|readObject|readObjectAsMap) to=(*Decoder).UnsafeUntil,(*Decoder).UnsafeNext,(*Decoder).readUnsafeString,(*Decoder).ReadUnsafeString,(*Decoder).readUnsafeBytes prop=C14,C05
 
 // ---- first use of a struct type from several goroutines (C14) ------------------------------------
 //
